@@ -13,6 +13,7 @@ from liquid2.builtin import Filter
 from liquid2.builtin import KeywordArgument
 from liquid2.builtin import PositionalArgument
 from liquid2.builtin import StringLiteral
+from liquid2.exceptions import LiquidTypeError
 from liquid2.filter import int_arg
 from liquid2.messages import MESSAGES
 from liquid2.messages import MessageText
@@ -75,9 +76,14 @@ class BaseTranslateFilter:
             }
 
         # Missing variables get replaced by the current `Undefined` type and we're
-        # converting all values to a string, so a KeyError or a ValueError should
-        # be impossible.
-        return message_text % _vars
+        # converting all values to a string. A message with a conversion other than
+        # `s`, like `%(count)d`, names a variable we have not looked up.
+        try:
+            return message_text % _vars
+        except KeyError as err:
+            raise LiquidTypeError(
+                f"unexpected format specifier for message variable {err}", token=None
+            ) from err
 
     def _resolve_translations(self, context: RenderContext) -> Translations:
         return cast(
